@@ -6,6 +6,7 @@ use crate::engine::materialize::MaterializationError;
 use crate::engine::materialize::catalog::{
     MaterializationTelemetry, RetentionPolicy, SchemaSnapshot,
 };
+use crate::engine::materialize::high_water::HighWaterMark;
 
 use crate::engine::core::read::cache::GlobalMaterializedFrameCache;
 
@@ -74,7 +75,13 @@ impl MaterializedStore {
         let encoded = self.codec.encode(schema, batch)?;
         let index = self.manifest.next_frame_index();
         let writer = self.frame_storage.writer();
-        let meta = writer.write(index, &encoded)?;
+        let mut meta = writer.write(index, &encoded)?;
+        // The frame header records the maximum timestamp and the maximum event id separately
+        // (they need not belong to one row). The mark is compared as a (timestamp, event_id)
+        // pair by `HighWaterMark` and the SHOW watermark filter: take it from the rows.
+        if let Some(mark) = Self::batch_high_water_mark(schema, batch) {
+            meta.high_water_mark = mark;
+        }
 
         self.manifest.bump_frame_index();
         self.manifest.push_frame(meta.clone());
@@ -127,6 +134,26 @@ impl MaterializedStore {
     pub fn clear_retention_policy(&mut self) {
         self.manifest.clear_retention_policy();
         let _ = self.persist_manifest();
+    }
+
+    /// Largest (timestamp, event_id) pair among the rows of a batch, compared like
+    /// `HighWaterMark` compares (timestamp first, then event id).
+    fn batch_high_water_mark(
+        schema: &[SchemaSnapshot],
+        batch: &ColumnBatch,
+    ) -> Option<HighWaterMark> {
+        let timestamp_index = schema.iter().position(|c| c.name == "timestamp")?;
+        let event_id_index = schema.iter().position(|c| c.name == "event_id")?;
+        let timestamps = batch.column(timestamp_index).ok()?;
+        let event_ids = batch.column(event_id_index).ok()?;
+
+        let mut mark: Option<(u64, u64)> = None;
+        for (timestamp, event_id) in timestamps.iter().zip(event_ids.iter()) {
+            if let (Some(ts), Some(eid)) = (timestamp.as_u64(), event_id.as_u64()) {
+                mark = mark.max(Some((ts, eid)));
+            }
+        }
+        mark.map(|(ts, eid)| HighWaterMark::new(ts, eid))
     }
 
     fn persist_manifest(&self) -> Result<(), MaterializationError> {
